@@ -41,6 +41,7 @@ type (
 	avList    struct{ l []AV }      // slice with statically known elements
 	avPkg     struct{ path string } // imported package
 	avTuple   struct{ l []AV }      // multiple results
+	avMapElem struct{ id int }      // the (data) element of a collector map: unknown data, but we know which map
 )
 
 type avStruct struct {
@@ -93,7 +94,13 @@ func (e *env) assign(n string, v AV) {
 	e.vars[n] = &cell{v}
 }
 
-func isUnknown(v AV) bool { _, ok := v.(avUnknown); return ok || v == nil }
+func isUnknown(v AV) bool {
+	if _, ok := v.(avMapElem); ok {
+		return true
+	}
+	_, ok := v.(avUnknown)
+	return ok || v == nil
+}
 
 // key gives a canonical string for structural comparison of abstract values.
 func key(v AV) string {
@@ -101,6 +108,8 @@ func key(v AV) string {
 	case nil:
 		return "?"
 	case avUnknown:
+		return "?"
+	case avMapElem:
 		return "?"
 	case avZero:
 		return "zero"
